@@ -254,10 +254,10 @@ func (j *judge) check(sp *reqSpec, e expectation, o *obs) bool {
 }
 
 func methodVariant(sp *reqSpec) string {
-	if sp.Method != "OPTIONS" {
+	if sp.Method != "OPTIONS" && sp.ACRM == "" {
 		return sp.Method
 	}
-	v := "OPTIONS"
+	v := sp.Method
 	if sp.ACRM != "" {
 		v += "+acrm=" + sp.ACRM
 	}
